@@ -54,16 +54,22 @@ def returns_ok(ret, adv):
 
 
 def region(first, last):
-    def pick(body):
-        out, on = [], False
+    """Statement range of the real function body, selected mechanically by source-text prefixes; `with` blocks are
+    searched too (the statements keep their order; nothing is rewritten)."""
+    def flat(body):
         for s in body:
-            txt = ast.unparse(s)
-            if not on and txt.startswith(first):
-                on = True
-            if on:
-                out.append(s)
-                if txt.startswith(last):
-                    return out
+            yield s
+    def pick(body):
+        for cand in [body] + [w.body for w in ast.walk(ast.Module(body=body, type_ignores=[])) if isinstance(w, ast.With)]:
+            out, on = [], False
+            for s in flat(cand):
+                txt = ast.unparse(s)
+                if not on and txt.startswith(first):
+                    on = True
+                if on:
+                    out.append(s)
+                    if txt.startswith(last):
+                        return out
         raise Undecided(f"region {first!r} .. {last!r} not found in the function body")
     return pick
 
